@@ -73,6 +73,15 @@ def pymod(E, a, b):
 
 
 def binop(E, op, a, b):
+    from . import tainted as _T
+    if _T.is_tainted(E, a) or _T.is_tainted(E, b):
+        if op in ('Add', 'Mult') or (op == 'Mod' and _T.is_tainted(E, a)):
+            ra = _T.raw(E, a) if _T.is_tainted(E, a) else a
+            rb = _T.raw(E, b) if _T.is_tainted(E, b) else b
+            return _T.make(E, binop(E, op, ra, rb))
+        if op == 'Mod':      # plain format string % tainted value: str(value) is the raw text
+            return binop(E, op, a, _T.raw(E, b))
+        raise Unsupported('operator %s on a TaintedString' % op)
     # concrete folding
     if isinstance(a, VC) and isinstance(b, VC):
         try:
@@ -200,17 +209,48 @@ def str_format(E, fmt, arg):
         args = arg.items if isinstance(arg, VT) else [arg]
         # split on simple %s / %d / %r directives
         import re
-        parts = re.split(r'(%[sdr])', f)
-        nd = sum(1 for p in parts if p in ('%s', '%d', '%r'))
-        if '%' in re.sub(r'%[sdr]', '', f.replace('%%', '')):
+        DIR = r'%(?:[sdr]|-?[0-9]*s|[0-9]*[.]?[0-9]*f)'
+        parts = re.split('(' + DIR + ')', f)
+        is_dir = lambda p: re.fullmatch(DIR, p) is not None  # noqa
+        nd = sum(1 for p in parts if is_dir(p))
+        if '%' in re.sub(DIR, '', f.replace('%%', '')):
             raise Unsupported('format directive in %r' % f)
         if nd != len(args):
             _raise('TypeError', 'not all arguments converted during string formatting')
         out = VC('')
         it = iter(args)
         for p in parts:
-            if p in ('%s', '%r', '%d'):
+            if is_dir(p):
                 x = next(it)
+                from . import tainted as _T
+                if p.endswith('f') or p == '%d':
+                    if _T.is_tainted(E, x):
+                        # __int__ / __float__ of the raw text: a number is formatted (digits only) or ValueError
+                        opaque_op_may_raise(E, 'number format of text')
+                        d = z3.String(E.fresh('digits'))
+                        E.assume(z3.Not(z3.Contains(d, S('<'))))
+                        out = binop(E, 'Add', out, VS(d))
+                        continue
+                if p.endswith('f'):
+                    if known_type(E, x) in ('int', 'bool', 'float'):
+                        d = z3.String(E.fresh('digits'))
+                        E.assume(z3.Not(z3.Contains(d, S('<'))))
+                        out = binop(E, 'Add', out, VS(d))
+                        continue
+                    if known_type(E, x) is None:
+                        opaque_op_may_raise(E, '%f format')
+                        d = z3.String(E.fresh('digits'))
+                        E.assume(z3.Not(z3.Contains(d, S('<'))))
+                        out = binop(E, 'Add', out, VS(d))
+                        continue
+                    _raise('TypeError', 'must be real number')
+                if p.endswith('s') and p != '%s':
+                    # width / alignment: the text padded with blanks (some string containing str(x); padding has no '<')
+                    pad1, pad2 = z3.String(E.fresh('pad')), z3.String(E.fresh('pad'))
+                    E.assume(z3.Not(z3.Contains(pad1, S('<'))))
+                    E.assume(z3.Not(z3.Contains(pad2, S('<'))))
+                    out = binop(E, 'Add', binop(E, 'Add', binop(E, 'Add', out, VS(pad1)), E.to_str(x)), VS(pad2))
+                    continue
                 if p == '%d' and known_type(E, x) not in ('int', 'bool'):
                     if known_type(E, x) is None:
                         opaque_op_may_raise(E, '%d format')
@@ -353,6 +393,15 @@ def _wrapb(x):
 
 
 def compare(E, op, a, b):
+    from . import tainted as _T
+    if op not in ('Is', 'IsNot') and (_T.is_tainted(E, a) or _T.is_tainted(E, b)):
+        # __eq__ / __lt__ (total_ordering) compare the raw value
+        a = _T.raw(E, a) if _T.is_tainted(E, a) else a
+        b = _T.raw(E, b) if _T.is_tainted(E, b) else b
+        if op in ('In', 'NotIn') :
+            pass
+        elif op in ('Eq', 'NotEq') and known_type(E, a) != known_type(E, b) and None not in (known_type(E, a), known_type(E, b)):
+            return VC(op == 'NotEq')
     if op == 'Is':
         return _wrapb(identical(E, a, b))
     if op == 'IsNot':
@@ -681,6 +730,9 @@ def clamp_slice(E, lo, hi, n):
 
 
 def getslice(E, obj, lo, hi):
+    from . import tainted as _T
+    if _T.is_tainted(E, obj):
+        return _T.maybe(E, getslice(E, _T.raw(E, obj), lo, hi))
     if isinstance(obj, VC) and isinstance(obj.v, (str, bytes, tuple)):
         if (lo is None or isinstance(lo, VC)) and (hi is None or isinstance(hi, VC)):
             return VC(obj.v[(lo.v if lo else None):(hi.v if hi else None)])
@@ -767,6 +819,18 @@ def delitem(E, obj, idx):
                 del target.fields[idx.v]
                 return
             _raise('KeyError', idx)
+    if isinstance(obj, VRef) and isinstance(E.heap[obj.addr], HList) and isinstance(idx, VC) and idx.v == 0:
+        h = E.heap[obj.addr]
+        if h.base is not None and not h.items:
+            old = h.base
+            if E.branch(old.length <= 0, 'del from empty list'):
+                _raise('IndexError', 'list assignment index out of range')
+            nm = E.fresh('tail')
+            new = VSeq(nm, z3.simplify(old.length - 1))
+            k = z3.Int('k!' + nm)
+            E.assume(z3.ForAll([k], z3.Implies(z3.And(k >= 0, k < old.length - 1), new.elem(k) == old.elem(k + 1))))
+            h.base = new
+            return
     raise Unsupported('delitem on %r' % (obj,))
 
 
